@@ -238,6 +238,8 @@ def translate() -> tuple[str, dict]:
     tries0 = s.circuit_timeout // s.next_hop_timeout
 
     # ---- do_remove
+    if any(isinstance(n, (ast.Return, ast.Raise)) for n in ast.walk(_fn(tc, "do_remove"))):
+        raise TranslatorError("do_remove can leave (return/raise) before all tables are swept")
     dr = [st for st in _body(_fn(tc, "do_remove")) if isinstance(st, ast.For)]
     if len(dr) < 3:
         raise TranslatorError("do_remove: fewer than three sweep loops")
@@ -260,7 +262,8 @@ def translate() -> tuple[str, dict]:
         raise TranslatorError("relay_cell: relay_early budget test not found")
     early_drop = Cond(None, False).boolean(budget[0].test)
     src_rc = ast.unparse(rcell)
-    if "next_relay.relay_early_count += 1" not in src_rc:
+    if not any(isinstance(st, ast.AugAssign) and ast.unparse(st) == "next_relay.relay_early_count += 1"
+               for st in _body(rcell)):
         raise TranslatorError("relay_cell: the per-route counter is no longer incremented by one per forwarded cell")
     tun = ast.parse((REPO / TUN).read_text())
     rinit = _fn(_cls(tun, "RelayRoute"), "__init__")
@@ -281,6 +284,30 @@ def translate() -> tuple[str, dict]:
             and ast.unparse(ot[1].body[-1]) == "return"):
         raise TranslatorError("RetryRequestCache.on_timeout: unexpected shape")
     give_up = Cond(None, False).boolean(ot[1].test)
+    # ---- remove_exit_socket: which condition closes the outside transports of the popped exit socket
+    res = _fn(tc, "remove_exit_socket")
+    popped = None
+    for st in ast.walk(res):
+        if isinstance(st, ast.Assign) and ast.unparse(st.value) == "self.exit_sockets.pop(circuit_id, None)" \
+                and isinstance(st.targets[0], ast.Name):
+            popped = st.targets[0].id
+    if popped is None:
+        raise TranslatorError("remove_exit_socket: `X = self.exit_sockets.pop(circuit_id, None)` not found")
+    close_cond = None
+    for st in ast.walk(res):
+        if isinstance(st, ast.If) and ast.unparse(st.test) == popped:
+            for inner in st.body:
+                if isinstance(inner, ast.Expr) and ast.unparse(inner) == f"await {popped}.close()":
+                    close_cond = "true"
+                elif isinstance(inner, ast.If) and any(ast.unparse(x) == f"await {popped}.close()" for x in inner.body):
+                    t = ast.unparse(inner.test)
+                    if t == f"{popped}.enabled":
+                        close_cond = "enabledAtPop"
+                    else:
+                        raise TranslatorError(f"remove_exit_socket: the popped socket is closed under `{t}`, "
+                                              f"not under its own `enabled` flag")
+    if close_cond is None:
+        raise TranslatorError("remove_exit_socket: no `await <popped>.close()` for the popped exit socket")
     # ---- remove_* guards
     guards = {_guard(_fn(tc, n)) for n in ("remove_circuit", "remove_relay", "remove_exit_socket")}
     if len(guards) != 1:
@@ -316,6 +343,8 @@ def translate() -> tuple[str, dict]:
             "/-- relay_cell drops the cell because the relay_early budget of the route is used up -/",
             "def earlyDrop (c : Cfg) (flag : Bool) (count : Nat) : Bool :=", f"  {early_drop}", "",
             "/-- RelayRoute.relay_early_count at construction -/", f"def earlyInit : Nat := {early_init}", "",
+            "/-- remove_exit_socket closes the transports of the exit socket it pops (argument: its `enabled` flag then) -/",
+            "def closeOnPop (enabledAtPop : Bool) : Bool :=", f"  {close_cond}", "",
             "/-- RetryRequestCache.on_timeout gives up (removes the circuit) instead of retrying -/",
             "def giveUp (cands tries : Nat) : Bool :=", f"  {give_up}", "",
             "end Ipv8.C09.Gen", ""]
